@@ -47,17 +47,17 @@ def _oracles(prop, plan):
 
 
 WORLD = {
-    "C02": dict(nv=(2, 8), ns=(1, 3), nb=(1, 2), nr=(0, 15), plug_counts=[1, 1, 2], stalls=[1, 1, 2], p_fleets=0.2,
+    "C02": dict(p_schedules=0.25, nv=(2, 8), ns=(1, 3), nb=(1, 2), nr=(0, 15), plug_counts=[1, 1, 2], stalls=[1, 1, 2], p_fleets=0.2,
                 soc=[0.01, 0.05, 0.2, 0.5, 0.9, 1.0], steps=[60, 60, 30, 120, 300, 15]),
-    "C03": dict(nv=(1, 8), ns=(0, 2), nb=(0, 2), nr=(5, 30), p_rate=0.8, soc=[0.003, 0.02, 0.2, 0.5, 0.9],
+    "C03": dict(p_schedules=0.25, nv=(1, 8), ns=(0, 2), nb=(0, 2), nr=(5, 30), p_rate=0.8, soc=[0.003, 0.02, 0.2, 0.5, 0.9],
                 steps=[60, 60, 30, 15, 120, 300, 7]),
-    "C04": dict(nv=(1, 6), ns=(1, 3), nb=(1, 2), nr=(0, 12), steps=[60, 30, 15, 120, 300, 7, 1, 61, 900, 45],
+    "C04": dict(p_schedules=0.25, nv=(1, 6), ns=(1, 3), nb=(1, 2), nr=(0, 12), steps=[60, 30, 15, 120, 300, 7, 1, 61, 900, 45],
                 soc=[0.002, 0.01, 0.05, 0.2, 0.5, 0.9, 0.99, 1.0], pc_steps=[60, 60, 1, 15, 90]),
-    "C05": dict(nv=(1, 6), ns=(1, 3), nb=(1, 2), nr=(3, 20), p_prices=0.8, p_rate=1.0, soc=[0.02, 0.1, 0.3, 0.6],
+    "C05": dict(p_schedules=0.25, nv=(1, 6), ns=(1, 3), nb=(1, 2), nr=(3, 20), p_prices=0.8, p_rate=1.0, soc=[0.02, 0.1, 0.3, 0.6],
                 steps=[60, 60, 120, 300, 30, 45]),
     "C06": dict(nv=(1, 5), ns=(1, 3), nb=(1, 2), nr=(3, 20), network=["graph", "graph", "graph", "haversine", "haversine", "denver"],
                 steps=[1, 5, 7, 15, 30, 60, 60, 120, 300, 900], soc=[0.5, 0.9, 1.0, 1.0, 0.05], nsteps=(20, 60)),
-    "C07": dict(nv=(1, 6), ns=(1, 3), nb=(1, 3), nr=(2, 15), network=["haversine", "haversine", "graph"], p_fleets=0.15,
+    "C07": dict(p_schedules=0.25, nv=(1, 6), ns=(1, 3), nb=(1, 3), nr=(2, 15), network=["haversine", "haversine", "graph"], p_fleets=0.15,
                 soc=[0.05, 0.3, 0.6, 1.0]),
     "C08": dict(nv=(1, 8), ns=(0, 3), nb=(0, 2), nr=(0, 25), p_fleets=0.1),
     "C09": dict(nv=(2, 5), ns=(1, 2), nb=(1, 2), nr=(2, 10), nsteps=(15, 40), p_fleets=0.3, p_schedules=0.3,
@@ -70,12 +70,12 @@ WORLD = {
                 steps=[60, 60, 30, 120], nsteps=(20, 60), matching_thr=[0.0, 0.5, 5, 20], veh_fleet_counts=[0, 1, 1, 2, 2]),
     "C16": dict(nv=(1, 6), ns=(0, 3), nb=(0, 2), nr=(0, 20), nsteps=(15, 50), p_fleets=0.2, p_schedules=0.2,
                 network=["haversine", "haversine", "graph"]),
-    "C17": dict(nv=(1, 8), ns=(0, 2), nb=(0, 1), nr=(4, 25), soc=[0.002, 0.004, 0.01, 0.05, 0.3, 0.9], p_fleets=0.15,
+    "C17": dict(p_schedules=0.25, nv=(1, 8), ns=(0, 2), nb=(0, 1), nr=(4, 25), soc=[0.002, 0.004, 0.01, 0.05, 0.3, 0.9], p_fleets=0.15,
                 steps=[60, 60, 30, 15, 120]),
-    "C18": dict(nv=(4, 10), ns=(1, 2), nb=(0, 1), nr=(0, 6), plug_counts=[1, 1, 2], soc=[0.02, 0.05, 0.1, 0.15],
+    "C18": dict(p_schedules=0.25, nv=(4, 10), ns=(1, 2), nb=(0, 1), nr=(0, 6), plug_counts=[1, 1, 2], soc=[0.02, 0.05, 0.1, 0.15],
                 mech=["bev", "bev", "bev", "ice"], steps=[60, 60, 30, 120, 300], nsteps=(30, 90), charging_thr=[20, 50],
                 extent_m=[300, 800, 1500]),
-    "C19": dict(nv=(1, 6), ns=(1, 3), nb=(1, 2), nr=(5, 30), p_prices=0.5, p_rate=1.0, soc=[0.02, 0.1, 0.3, 0.6],
+    "C19": dict(p_schedules=0.25, nv=(1, 6), ns=(1, 3), nb=(1, 2), nr=(5, 30), p_prices=0.5, p_rate=1.0, soc=[0.02, 0.1, 0.3, 0.6],
                 steps=[60, 60, 120, 300, 30, 45, 7], starts=[0, 86400 - 600, 86400 - 1800, 1234, 3600 * 8]),
     "C20": dict(nv=(1, 6), ns=(0, 2), nb=(1, 2), nr=(0, 30), p_schedules=1.0, p_human=0.8, nsteps=(60, 300),
                 steps=[900, 900, 600, 300, 61, 7, 120], starts=[0, 3600 * 8, 86400 - 600, 1234, 17 * 3600 + 13, 2 * 86400 + 23 * 3600]),
